@@ -26,7 +26,6 @@ CONSTANTS
   ReadVal,        \* [device -> string]  abstract reading ("dict:<keys>") returned by read
   DataKeys,       \* [device -> set of data keys] (collision check in a bundle)
   FutNames,       \* names of suspension futures
-  RecordIntr,     \* RE.record_interruptions
   StreamOrder,    \* the streams as a sequence (canonical order for num_events lines)
   DevOrder        \* the devices as a sequence (canonical order for set-iteration device calls)
 
@@ -81,7 +80,8 @@ ListGen(ms) == [k |-> "list", msgs |-> ms, pos |-> 0, p |-> 0, done |-> FALSE]
 ZeroCtr == [s \in Streams |-> 0]
 ClosedRun == [open |-> FALSE, ord |-> 0, bundling |-> FALSE, bname |-> "", objs |-> <<>>,
               ctr |-> ZeroCtr, copy |-> ZeroCtr, descs |-> {}, dobjs |-> [s \in Streams |-> {}],
-              mons |-> {}, monsub |-> {}, intr |-> FALSE]
+              mons |-> {}, monsub |-> {}, intr |-> FALSE,
+              dcache |-> {}]      \* devices whose describe()/configuration are cached by this run's bundler
 
 NoCmd == [kind |-> "", a |-> "", sids |-> {}]
 
@@ -99,7 +99,7 @@ InitS ==
     runs |-> [k \in RunKeys |-> ClosedRun],
     nextRun |-> 1, nextMid |-> 1, nextSid |-> 1,
     staged |-> {}, moved |-> {}, seen |-> {},
-    groups |-> [g \in {"", "g1", "g2"} |-> {}],   \* group -> sids not yet waited for
+    groups |-> [g \in {} |-> {}],   \* group -> sids not yet waited for (RunEngine._groups)
     stDone |-> <<>>,        \* sid -> "pending" | "ok" | "fail"
     futs |-> {},            \* released suspension futures
     cmd |-> NoCmd,          \* the blocking command in progress at pc = "cmd"
@@ -112,6 +112,7 @@ InitS ==
     caller |-> [phase |-> "idle", op |-> ""],
     blocking |-> FALSE,     \* _blocking_event.is_set()
     uids |-> 0,
+    recIntr |-> FALSE,      \* RE.record_interruptions (set before the call)
     planRet |-> FALSE ]     \* the plan ran to completion (StopIteration out of the last generator)
 
 Init == S = InitS /\ obs = <<>>
@@ -129,10 +130,14 @@ ResetCkpt(s) == IF ~s.cacheOn THEN s
                 ELSE [s EXCEPT !.cache = <<>>,
                                !.runs = [k \in RunKeys |-> IF s.runs[k].open THEN ResetCopy(s.runs[k]) ELSE s.runs[k]]]
 
-\* RunBundler.rewind: counters := copy; streams with a prepared descriptor re-seeded at 1; bundle cancelled
+\* RunBundler.rewind: counters := copy, except that streams which are never replayed (interruptions, monitors)
+\* keep their live counters; streams with a prepared descriptor re-seeded at 1; bundle cancelled
+Unreplayed(s) == s = "interruptions" \/ s \in Mons
 RewindRun(r) ==
-  LET c == [s \in Streams |-> IF r.copy[s] # 0 THEN r.copy[s] ELSE IF s \in r.descs THEN 1 ELSE 0]
-  IN [r EXCEPT !.ctr = c, !.copy = c, !.bundling = FALSE]
+  LET c == [s \in Streams |-> IF Unreplayed(s) /\ r.ctr[s] # 0 THEN r.ctr[s]
+                               ELSE IF r.copy[s] # 0 THEN r.copy[s] ELSE IF s \in r.descs THEN 1 ELSE 0]
+      cc == [s \in Streams |-> IF r.copy[s] # 0 THEN r.copy[s] ELSE IF s \in r.descs /\ ~(Unreplayed(s) /\ r.ctr[s] # 0) THEN 1 ELSE 0]
+  IN [r EXCEPT !.ctr = c, !.copy = cc, !.bundling = FALSE]
 
 \* RunEngine._rewind: returns the state with the cache emptied and (if it was non-empty) every open run rewound
 Rewound(s) ==
@@ -173,6 +178,11 @@ NevSeq(T, ctr, ord) == NevFrom(1, ctr, ord)
 \* RunBundler.close_run: clear monitor subscriptions, stop document
 CloseObs(r, status) == DevOps(r.mons, "clear_sub") \o <<EvDoc("stop", "", status, 0, r.ord)>> \o NevSeq(Streams, r.ctr, r.ord)
 
+\* RunEngine._groups (a defaultdict): group -> statuses
+GroupOf(s, g) == IF g \in DOMAIN s.groups THEN s.groups[g] ELSE {}
+WithGroup(s, g, v) == [s EXCEPT !.groups = [x \in (DOMAIN s.groups) \cup {g} |-> IF x = g THEN v ELSE s.groups[x]]]
+PopGroup(s, g) == [s EXCEPT !.groups = [x \in (DOMAIN s.groups) \ {g} |-> s.groups[x]]]
+
 Push(s, g, r) == [s EXCEPT !.gens = Append(@, g), !.resps = Append(@, r)]
 Top1(q) == q[Len(q)]
 Pop1(q) == SubSeq(q, 1, Len(q) - 1)
@@ -181,18 +191,18 @@ Pop1(q) == SubSeq(q, 1, Len(q) - 1)
 (* caller-side actions (main thread) *)
 
 \* RE(plan): 908-981.  p0 = initial program state of the environment generator.
-Call(p0) ==
+Call(p0, ri) ==
   /\ S.caller.phase = "idle" /\ S.st = "idle" /\ S.pc \in {"none", "done"}
   /\ S' = [S EXCEPT !.caller = [phase |-> "blocked", op |-> "run"],
                     !.deferred = FALSE, !.exc = None, !.exitStatus = "success", !.interrupted = FALSE,
                     !.cacheOn = TRUE, !.cache = <<>>,
                     !.staged = {}, !.moved = {}, !.seen = {}, !.uids = 0,
-                    !.groups = [g \in DOMAIN S.groups |-> {}],
+                    !.groups = [g \in {} |-> {}],
                     !.gens = <<EnvGen(p0)>>, !.resps = <<Val(None)>>,
                     !.hasTask = FALSE, !.taskRes = "none", !.taskExc = None, !.exitExc = None, !.planRet = FALSE,
                     !.permit = TRUE, !.blocking = FALSE, !.cancel = FALSE, !.stashed = None,
-                    !.pc = "start"]
-  /\ obs' = <<Ev("call", "run", "", "", "", 0, 0)>>
+                    !.pc = "start", !.recIntr = ri]
+  /\ obs' = <<Ev("call", "run", IF ri THEN "ri" ELSE "", "", "", 0, 0)>>
 
 \* the blocking call returns: _resume_task 1105-1129 then __call__/resume 983-990 / __interrupter_helper
 RetOutcome(s) == IF s.taskRes \notin {"none", "ok", "cancelled"} THEN "exc:" \o s.taskRes
@@ -301,7 +311,7 @@ ReqTerminate(op) ==
 \* a status object finishes later (timer) and _status_object_completed lands: 2365-2392
 \* (pardon_failures is set in the finally block: after that failures are ignored)
 StatusDone(sid, ok) ==
-  /\ AtPark
+  /\ AtPark \/ S.pc \in {"none", "done"}
   /\ sid \in DOMAIN S.stDone /\ S.stDone[sid] = "pending"
   /\ S' = [S EXCEPT !.stDone[sid] = IF ok THEN "ok" ELSE "fail",
                     !.exc = IF ~ok /\ TaskAlive THEN "FailedStatus" ELSE @]
@@ -313,9 +323,10 @@ MonitorUpdate(d) ==
   /\ LET ks == {k \in RunKeys : d \in S.runs[k].monsub} IN
      /\ Cardinality(ks) <= 1
      /\ S' = [S EXCEPT !.runs = [k \in RunKeys |-> IF k \in ks THEN [S.runs[k] EXCEPT !.ctr[d] = @ + 1] ELSE S.runs[k]]]
-     /\ obs' = <<EvDev(d, "update", "", Cardinality(ks))>>
-               \o (IF ks = {} THEN <<>> ELSE LET k == CHOOSE k \in ks : TRUE
-                                            IN <<EvDoc("event", d, "", S.runs[k].ctr[d], S.runs[k].ord)>>)
+     /\ obs' = ReqObsA("update", d, "", "",
+                        <<EvDev(d, "update", "", Cardinality(ks))>>
+                        \o (IF ks = {} THEN <<>> ELSE LET k == CHOOSE k \in ks : TRUE
+                                                     IN <<EvDoc("event", d, "", S.runs[k].ctr[d], S.runs[k].ord)>>), "ok")
 
 ----------------------------------------------------------------------------
 (* run task *)
@@ -386,9 +397,14 @@ CancelHandler(s, same) ==
       s3 == IF s2.popped THEN [s2 EXCEPT !.resps = Append(@, s2.newResp), !.popped = FALSE] ELSE s2
   IN IF s3.pc = "exit" THEN s3 ELSE [s3 EXCEPT !.pc = "top", !.cmd = NoCmd]
 
-DeliverCancel ==
+\* cached: for a cancel delivered inside _ensure_cached (read_cache / mon_cache) the gather children have either
+\* completed (caches filled) or been cancelled with it -- both are possible schedules
+DeliverCancel(cached) ==
   /\ S.pc \in {"sleep0", "cmd"} /\ S.cancel
-  /\ S' = CancelHandler([S EXCEPT !.newResp = Val(None)], FALSE)
+  /\ LET inCache == S.pc = "cmd" /\ S.cmd.kind \in {"read_cache", "mon_cache"}
+         s0 == IF inCache /\ cached THEN [S EXCEPT !.runs[S.cur.run].dcache = @ \cup {S.cur.obj}] ELSE S
+     IN /\ (~inCache => cached)
+        /\ S' = CancelHandler([s0 EXCEPT !.newResp = Val(None)], FALSE)
   /\ obs' = <<>>
 
 ----------------------------------------------------------------------------
@@ -416,13 +432,17 @@ Fetch(r) ==
          s0 == [S EXCEPT !.resps = Pop1(@), !.exc = None, !.popped = TRUE, !.newResp = Val(None),
                          !.stashed = IF S.exc # None THEN S.exc ELSE @]
          isEnv == g.k = "env"
-         genEv == IF isEnv THEN <<EvGen(IF inp.t = "exc" THEN "throw" ELSE "send", inp.v,
+         \* Python: throwing into a generator that has not started raises immediately, its body (and therefore
+         \* the instrumented wrapper that logs `gen` events) never runs
+         unstarted == g.pos = 0 /\ inp.t = "exc"
+         genEv == IF isEnv /\ ~unstarted THEN <<EvGen(IF inp.t = "exc" THEN "throw" ELSE "send", inp.v,
                                          IF r.k = "raise" THEN "raise:" \o r.e ELSE r.k)>> ELSE <<>>
          \* fresh messages get a fresh identity; replayed ones (list generators) keep theirs
          m1 == IF r.k = "yield" /\ r.m.mid = 0 THEN [r.m EXCEPT !.mid = S.nextMid] ELSE r.m
          g1 == [g EXCEPT !.pos = IF r.k = "yield" THEN @ + 1 ELSE @, !.p = r.p, !.done = (r.k # "yield")]
      IN
      /\ g.k = "list" => r = ListReact(g, inp)
+     /\ unstarted => r = Reaction("raise", NoMsg, inp.v, r.p)
      /\ \/ /\ r.k = "yield"
            \* the generator yielded a message (clears a stashed exception that it handled)
            /\ S' = [s0 EXCEPT !.gens = [@ EXCEPT ![Len(@)] = g1], !.stashed = None, !.cur = m1, !.pc = "exec",
@@ -478,9 +498,9 @@ HelperMsgs(m, wasRew, rewindMsgs) ==
 \*   "later"  still pending (a StatusDone step finishes it)
 NewStatus(s, group, d) ==
   LET sid == s.nextSid IN
-  [s EXCEPT !.nextSid = @ + 1,
+  [WithGroup(s, group, GroupOf(s, group) \cup {sid})
+     EXCEPT !.nextSid = @ + 1,
             !.stDone = Append(@, CASE d = "ok" -> "ok" [] d = "fail" -> "fail" [] OTHER -> "pending"),
-            !.groups[group] = @ \cup {sid},
             !.exc = IF d = "fail" THEN "FailedStatus" ELSE @]
 StatEv(s, d) == IF d \in {"ok", "fail"} THEN <<Ev("stat", "", "", "", "", s.nextSid, IF d = "ok" THEN 1 ELSE 0)>> ELSE <<>>
 
@@ -502,15 +522,16 @@ Exec(d) ==
        [] c = "open_run" ->
             /\ d = "ok"
             /\ IF open THEN S' = Done(s0, IMS) /\ obs' = hook
-               ELSE LET r1 == [ClosedRun EXCEPT !.open = TRUE, !.ord = s0.nextRun, !.intr = RecordIntr,
-                                                !.ctr = IF RecordIntr THEN [ZeroCtr EXCEPT !["interruptions"] = 1] ELSE ZeroCtr]
+               ELSE LET r1 == [ClosedRun EXCEPT !.open = TRUE, !.ord = s0.nextRun, !.intr = s0.recIntr,
+                                                !.ctr = IF s0.recIntr THEN [ZeroCtr EXCEPT !["interruptions"] = 1] ELSE ZeroCtr]
                     IN /\ S' = Done([SetRun(s0, m.run, r1) EXCEPT !.nextRun = @ + 1, !.uids = @ + 1], Val("str"))
                        /\ obs' = hook \o <<EvDoc("start", "", "", 0, s0.nextRun)>>
-                                 \o (IF RecordIntr THEN <<EvDoc("descriptor", "interruptions", "", 0, s0.nextRun)>> ELSE <<>>)
+                                 \o (IF s0.recIntr THEN <<EvDoc("descriptor", "interruptions", "", 0, s0.nextRun)>> ELSE <<>>)
        [] c = "close_run" ->
             /\ d = "ok"
             /\ IF ~open THEN S' = Done(s0, IMS) /\ obs' = hook
-               ELSE /\ S' = Done(SetRun(s0, m.run, ClosedRun), Val("str"))
+               ELSE \* the run is closed and the rewind cache is reset (close_run is an implicit checkpoint)
+                    /\ S' = Done(ResetCkpt(SetRun(s0, m.run, ClosedRun)), Val("str"))
                     /\ obs' = hook \o CloseObs(r, IF m.a = "" THEN "success" ELSE m.a)
        [] c = "create" ->
             /\ d = "ok"
@@ -520,7 +541,10 @@ Exec(d) ==
             /\ d \in {"ok", "raise"}
             /\ IF d = "raise" THEN S' = Done(s0, Exc("DevErr")) /\ obs' = hook \o <<EvDev(m.obj, "read", "raise", 0)>>
                ELSE IF open /\ r.bundling THEN
-                    IF \E i \in 1..Len(r.objs) : DataKeys[r.objs[i]] \cap DataKeys[m.obj] # {}
+                    \* RunBundler.read: _ensure_cached awaits asyncio.gather(describe, describe_configuration,
+                    \* read_configuration) the first time a device is read in this run: a real suspension point
+                    IF m.obj \notin r.dcache THEN S' = Block(s0, "read_cache", "", {}) /\ obs' = hook \o <<EvDev(m.obj, "read", "", 0)>>
+                    ELSE IF \E i \in 1..Len(r.objs) : DataKeys[r.objs[i]] \cap DataKeys[m.obj] # {}
                     THEN S' = Done(s0, Exc("Err:ValueError")) /\ obs' = hook \o <<EvDev(m.obj, "read", "", 0)>>
                     ELSE S' = Done(SetRun(s0, m.run, [r EXCEPT !.objs = Append(@, m.obj)]), Val(ReadVal[m.obj]))
                          /\ obs' = hook \o <<EvDev(m.obj, "read", "", 0)>>
@@ -581,9 +605,9 @@ Exec(d) ==
             /\ d = "ok" /\ S' = Block(s0, "wait_for", m.a, {}) /\ obs' = hook
        [] c = "wait" ->
             /\ d = "ok"
-            /\ LET sids == s0.groups[m.a] IN
-               IF sids = {} THEN S' = Done(s0, Val("bool:True")) /\ obs' = hook
-               ELSE S' = Block([s0 EXCEPT !.groups[m.a] = {}], "wait", m.a, sids) /\ obs' = hook
+            /\ LET sids == GroupOf(s0, m.a) IN
+               IF sids = {} THEN S' = Done(PopGroup(s0, m.a), Val("bool:True")) /\ obs' = hook
+               ELSE S' = Block(PopGroup(s0, m.a), "wait", m.a, sids) /\ obs' = hook
        [] c \in {"set", "trigger"} ->
             /\ d \in {"ok", "raise", "fail", "later"}
             /\ LET s1 == IF c = "set" THEN [s0 EXCEPT !.moved = @ \cup {m.obj}] ELSE s0 IN
@@ -599,6 +623,7 @@ Exec(d) ==
        [] c = "monitor" ->
             /\ d = "ok"
             /\ IF ~open \/ m.obj \in r.mons THEN S' = Done(s0, IMS) /\ obs' = hook
+               ELSE IF m.obj \notin r.dcache THEN S' = Block(s0, "mon_cache", "", {}) /\ obs' = hook
                ELSE LET have == m.obj \in r.descs
                         r1 == [r EXCEPT !.mons = @ \cup {m.obj}, !.monsub = @ \cup {m.obj}, !.descs = @ \cup {m.obj},
                                         !.dobjs[m.obj] = {m.obj},
@@ -616,9 +641,9 @@ Exec(d) ==
             \* 1255-1309: record interruption, stop motors, pause devices, rewind, push the helper plan
             /\ d = "ok"
             /\ IF ~AllIntrOK(s0) THEN S' = Done(s0, Exc("Err:KeyError")) /\ obs' = hook
-               ELSE LET s1 == [s0 EXCEPT !.runs = IntrBump(s0.runs)]
-                        ob == hook \o IntrEvents(OpenKeysOf(s0.runs), s0.runs) \o DevOps(s0.moved \cap Motors, "stop")
-                              \o DevOps(s0.seen \cap Pausables, "pause")
+               ELSE LET s1 == [s0 EXCEPT !.runs = [k \in RunKeys |-> [IntrBump(s0.runs)[k] EXCEPT !.monsub = {}]]]
+                        ob == hook \o IntrEvents(OpenKeysOf(s0.runs), s0.runs) \o DevOps(AllMons(s0), "clear_sub")
+                              \o DevOps(s0.moved \cap Motors, "stop") \o DevOps(s0.seen \cap Pausables, "pause")
                     IN IF ~s1.cacheOn THEN S' = Done(s1, Exc("Err:TypeError")) /\ obs' = ob   \* len(None) in _rewind
                        ELSE LET s2 == Rewound(s1)
                                 helper == ListGen(HelperMsgs(m, s1.rewindable, s1.cache))
@@ -644,8 +669,26 @@ CmdDone ==
             /\ GroupDone(S, S.cmd.sids) \/ GroupFailed(S, S.cmd.sids)
             /\ IF GroupDone(S, S.cmd.sids) THEN S' = Done(S, Val("bool:True"))
                ELSE \* first exception with others pending: WaitForTimeoutError; the statuses are put back
-                    S' = Done([S EXCEPT !.groups[S.cmd.a] = @ \cup S.cmd.sids], Exc("WaitTimeout"))
+                    S' = Done(WithGroup(S, S.cmd.a, GroupOf(S, S.cmd.a) \cup S.cmd.sids), Exc("WaitTimeout"))
             /\ obs' = <<>>
+       [] S.cmd.kind = "read_cache" ->
+            \* the caches are filled; the rest of RunBundler.read runs (the run is still open and bundling: nothing else
+            \* ran in between)
+            LET m == S.cur
+                r == S.runs[m.run]
+                r1 == [r EXCEPT !.dcache = @ \cup {m.obj}]
+            IN /\ obs' = <<>>
+               /\ IF \E i \in 1..Len(r.objs) : DataKeys[r.objs[i]] \cap DataKeys[m.obj] # {}
+                  THEN S' = Done(SetRun(S, m.run, r1), Exc("Err:ValueError"))
+                  ELSE S' = Done(SetRun(S, m.run, [r1 EXCEPT !.objs = Append(@, m.obj)]), Val(ReadVal[m.obj]))
+       [] S.cmd.kind = "mon_cache" ->
+            LET m == S.cur
+                r == S.runs[m.run]
+                r1 == [r EXCEPT !.mons = @ \cup {m.obj}, !.monsub = @ \cup {m.obj}, !.descs = @ \cup {m.obj},
+                                !.dobjs[m.obj] = {m.obj}, !.dcache = @ \cup {m.obj},
+                                !.ctr[m.obj] = IF @ = 0 THEN 1 ELSE @]
+            IN /\ S' = Done(ResetCkpt(SetRun(S, m.run, r1)), Val(None))
+               /\ obs' = <<EvDoc("descriptor", m.obj, "", 0, r.ord), EvDev(m.obj, "subscribe", "", 0)>>
        [] S.cmd.kind = "ckpt_sleep" ->
             \* deferred pause at a checkpoint: after the 0.5 s sleep, _request_pause_coro(defer=False) inline (2454-2455)
             IF S.st # "running" THEN S' = Done(S, Exc("TransitionError")) /\ obs' = <<>>
